@@ -356,6 +356,7 @@ TRUNCATING = ('map_while', 'take_while', 'take', 'scan', 'skip_while', 'step_by'
 
 
 def rule_09_7(rep, fx):
+    from rules import nokeyinv
     """A dispose (or any change that does not unwrap to a value) in a batch is skipped, it does not end the batch."""
     rep.rule('R09.7', 'iterator forms do not stop at a change they cannot unwrap: the iterators returned by the no_key DataReader (iterator, conditional_iterator, into_iterator, '
                       'into_conditional_iterator) and by the with_key bare iterators are built from selecting / mapping adaptors only; a truncating adaptor (map_while, take_while, '
@@ -368,7 +369,15 @@ def rule_09_7(rep, fx):
             continue
         n += 1
         rep.analysed(b)
-        bad = sorted(set(callee_res(t).rsplit('::', 1)[-1] for _bb, t in b.calls() if ('Iterator' in callee_res(t) or 'iter::' in callee_res(t)) and callee_res(t).rsplit('::', 1)[-1] in TRUNCATING))
+
+        def excused(t):
+            # map_while(Sample::value) ends only at a dispose; over the cache-based DataReader of a NO_KEY topic there is none (rules/nokeyinv.py), so nothing is cut off
+            if 'dds::no_key::datareader::DataReader::' not in b.key or callee_res(t).rsplit('::', 1)[-1] != 'map_while' or len(t['args']) < 2:
+                return False
+            d = ((t['args'][1].get('k') or {}).get('def') or '')
+            return d.endswith('::value') and 'datasample::Sample' in d and nokeyinv.holds(fx)
+        bad = sorted(set(callee_res(t).rsplit('::', 1)[-1] for _bb, t in b.calls() if ('Iterator' in callee_res(t) or 'iter::' in callee_res(t)) and callee_res(t).rsplit('::', 1)[-1] in TRUNCATING
+                         and not excused(t)))
         for c in fx.closures_of(b):
             bad += sorted(set(callee_res(t).rsplit('::', 1)[-1] for _bb, t in c.calls() if ('Iterator' in callee_res(t) or 'iter::' in callee_res(t)) and callee_res(t).rsplit('::', 1)[-1] in TRUNCATING))
         rep.check(not bad, 'R09.7', '%s::%s' % ('no_key' if 'no_key' in b.key else 'with_key', b.name), 'no truncating adaptor',
